@@ -300,7 +300,7 @@ impl<R: Round> Context<R> {
         let is_sub = lhs.significand.sign() != rhs_sign * rhs.significand.sign();
         let rnd_precision = self.precision.saturating_add(is_sub as usize);
 
-        let ediff = (lhs.exponent - rhs.exponent) as usize;
+        let ediff = (lhs.exponent as i128 - rhs.exponent as i128) as usize; // i128: the gap of two isize exponents fills usize
         let ldigits = lhs.digits();
         let rdigits_est = rhs.digits_ub(); // overestimate
 
@@ -308,7 +308,7 @@ impl<R: Round> Context<R> {
         let low: (IBig, usize); // (value of low part, precision of the low part)
         let (significand, exponent) = if self.is_limited()
             && rdigits_est + 1 < ediff
-            && (rdigits_est + 1).saturating_add(rnd_precision) < ldigits + ediff
+            && (rdigits_est + 1).saturating_add(rnd_precision) < ediff.saturating_add(ldigits)
         {
             // if rhs is much smaller than lhs, direct round on the rhs
             /*
@@ -344,7 +344,7 @@ impl<R: Round> Context<R> {
             let (rhs_signif, r) = split_digits_ref::<B>(&rhs.significand, ediff);
             low = (rhs_sign * r, ediff);
             (lhs.significand + rhs_sign * rhs_signif, lhs.exponent)
-        } else if self.is_limited() && ediff + ldigits > self.precision {
+        } else if self.is_limited() && ediff.saturating_add(ldigits) > self.precision {
             // if the shifted lhs exceeds the desired precision, align lhs and rhs to precision
             /* Before:
              * lhs: |=========|
@@ -402,7 +402,7 @@ impl<R: Round> Context<R> {
         let is_sub = lhs.significand.sign() != rhs_sign * rhs.significand.sign();
         let rnd_precision = self.precision.saturating_add(is_sub as usize);
 
-        let ediff = (rhs.exponent - lhs.exponent) as usize;
+        let ediff = (rhs.exponent as i128 - lhs.exponent as i128) as usize; // i128: the gap of two isize exponents fills usize
         let rdigits = rhs.digits();
         let ldigits_est = lhs.digits_ub();
 
@@ -410,7 +410,7 @@ impl<R: Round> Context<R> {
         let low: (IBig, usize);
         let (significand, exponent) = if self.is_limited()
             && ldigits_est + 1 < ediff
-            && (ldigits_est + 1).saturating_add(rnd_precision) < rdigits + ediff
+            && (ldigits_est + 1).saturating_add(rnd_precision) < ediff.saturating_add(rdigits)
         {
             // if lhs is much smaller than rhs, direct round on the lhs
             let low_prec = if rdigits >= rnd_precision {
@@ -428,7 +428,7 @@ impl<R: Round> Context<R> {
                 Positive => (lhs_signif + &rhs.significand, rhs.exponent),
                 Negative => (lhs_signif - &rhs.significand, rhs.exponent),
             }
-        } else if self.is_limited() && ediff + rdigits > self.precision {
+        } else if self.is_limited() && ediff.saturating_add(rdigits) > self.precision {
             // if the shifted rhs exceeds the desired precision, align lhs and rhs to precision
             let lshift = self.precision - rdigits;
             let rshift = ediff - lshift;
